@@ -10,7 +10,8 @@
 //
 // <rec> = x<id>,<revoked 0|1>,<created>,x<key bytes>,<-|x<parent id>@<parent created>>; strings are hex of their UTF-8.
 // The Lean driver (lean/AsherahVerif/Driver/Metastore.lean) replays the same lines on the model.
-// Modes: random (seeded by VERIF_SEED), replay (a file of op lines, observations ignored).
+// Modes: random (seeded by VERIF_SEED), exhaustive (all sequences of a length over a small alphabet),
+// replay (a file of op lines, observations ignored).
 package main
 
 import (
@@ -427,6 +428,59 @@ func randomCases(rng *prng.R, cases, length int, only string) {
 	}
 }
 
+// exhaustive runs every sequence of exactly maxLen operations over a small alphabet (two ids, two
+// stamps, two record contents, lag and fault directives) on every backend kind, each followed by the
+// read-back sweep.
+func exhaustive(maxLen int) {
+	a, b := hx("_SK_svc_prod"), hx("k\"é")
+	r1 := a + ",0,1,x00ff10,-"
+	r2 := hx("") + ",1,2,x," + hx("p<\"\\") + "@-5"
+	alpha := []string{
+		"store " + a + " 1 " + r1, "store " + a + " 1 " + r2, "store " + a + " 2 " + r2, "store " + b + " 1 " + r1,
+		"load " + a + " 1", "load " + a + " 2", "latest " + a, "latest " + b, "lag 1", "fault",
+	}
+	kinds := []string{"memory", "sql:default", "sql:mysql", "sql:postgres", "sql:oracle", "ddb1", "ddb2"}
+	r := &run{}
+	seq := make([]int, maxLen)
+	for _, kind := range kinds {
+		for i := range seq {
+			seq[i] = 0
+		}
+		for {
+			r.exec(fmt.Sprintf("be %s table=- suffix=0 region=us-west-2", kind))
+			for _, x := range seq {
+				if r.dead {
+					break
+				}
+				r.exec(alpha[x])
+			}
+			for _, id := range []string{a, b} {
+				if r.dead {
+					break
+				}
+				r.exec("latest " + id)
+				r.exec("load " + id + " 1")
+				r.exec("load " + id + " 2")
+			}
+			i := maxLen - 1
+			for i >= 0 {
+				seq[i]++
+				if seq[i] < len(alpha) {
+					break
+				}
+				seq[i] = 0
+				i--
+			}
+			if i < 0 {
+				break
+			}
+		}
+	}
+	if r.b != nil {
+		r.b.close()
+	}
+}
+
 func replay(path string) {
 	f, err := os.Open(path)
 	if err != nil {
@@ -453,7 +507,8 @@ func replay(path string) {
 }
 
 func main() {
-	mode := flag.String("mode", "random", "random|replay")
+	mode := flag.String("mode", "random", "random|exhaustive|replay")
+	maxLen := flag.Int("maxlen", 3, "exhaustive sequence length")
 	cases := flag.Int("cases", 300, "random cases")
 	length := flag.Int("len", 30, "ops per random case (upper bound)")
 	only := flag.String("only", "", "restrict random cases to one backend kind")
@@ -463,6 +518,8 @@ func main() {
 	switch *mode {
 	case "random":
 		randomCases(prng.FromEnv(13), *cases, *length, *only)
+	case "exhaustive":
+		exhaustive(*maxLen)
 	case "replay":
 		replay(*file)
 	}
